@@ -74,8 +74,7 @@ def isp(chk, prog):
     ok = len(binds) == 1
     if ok:
         b = binds[0]
-        chain = b[2][0][1] if b[2] and is_t(b[2][0], "star") else None
-        okc = is_call(chain, "chain") and chain[2] == (lit, flat_args)
+        okc = tuple(b[2]) == (("star", lit), ("star", flat_args))
         kw = dict(b[3])
         okn = kw.get("num_consts") == ("call", G("len"), (lit,), ())
         oki = ev.closure_of(kw.get("impl")) is not None and ev.closure_of(kw.get("impl")).node is impl
@@ -86,13 +85,14 @@ def isp(chk, prog):
         chk.require(okr, "ISP-CONSTS", "initial_style_bind/result", "outputs unflattened with out_tree()", derived=show(r.ret)[:120], expected="tree_unflatten(out_tree(), outs)", where=where)
     else:
         chk.violation("ISP-CONSTS", "initial_style_bind/bind", "prim.bind call", derived=f"{len(binds)} bind calls", expected="one", where=where)
-    # the staged jaxpr is a free variable of _impl (bound in the enclosing function): found by role, not by name
-    _params = {a.arg for a in impl.args.args} | ({impl.args.vararg.arg} if impl.args.vararg else set()) | ({impl.args.kwarg.arg} if impl.args.kwarg else set())
-    _stored = {n.id for n in ast.walk(impl) if isinstance(n, ast.Name) and isinstance(n.ctx, ast.Store)}
-    _free = {n.id for n in ast.walk(impl) if isinstance(n, ast.Name) and isinstance(n.ctx, ast.Load)} - _params - _stored - set(m.imports) - set(m.funcs) - set(m.assigns) - set(dir(__builtins__) if not isinstance(__builtins__, dict) else __builtins__)
-    ri = Evaluator(prog).eval_fn(impl, m, env0={n_: P("$jaxpr") for n_ in _free})
-    sp = ("call", G("jax.util.split_list"), (P("args"), ("list", (("index", P("params"), C("num_consts")),))), ())
-    want = ("call", G("jax.core.eval_jaxpr"), (("attr", P("$jaxpr"), "jaxpr"), mk_proj(sp, 0), ("star", mk_proj(sp, 1))), ())
+    # _impl is evaluated in the environment it closes over (so the staged jaxpr it evaluates is a term, whatever name carries it)
+    clo = next((ev.closures[k] for k in ev.closures if ev.closures[k].node is impl), None)
+    if clo is None:
+        raise AnalysisError("initial_style_bind: _impl closure not found")
+    ri = Evaluator(prog).eval_fn(impl, m, env0=dict(clo.env))
+    ops = P(impl.args.vararg.arg) if impl.args.vararg else P("args")
+    n_ = ("index", P(impl.args.kwarg.arg) if impl.args.kwarg else P("params"), C("num_consts"))
+    want = ("call", G("jax.core.eval_jaxpr"), (("attr", jaxpr, "jaxpr"), ("index", ops, ("sliceobj", C(None), n_, C(None))), ("star", ("index", ops, ("sliceobj", n_, C(None), C(None))))), ())
     chk.require(ri.ret == want, "ISP-CONSTS", "initial_style_bind/_impl", "split at params['num_consts'] (reader agrees with the writer) and evaluate the staged jaxpr", derived=show(ri.ret)[:240], expected=show(want)[:240], where=f"{m.rel}:{impl.lineno}")
 
 
@@ -105,7 +105,7 @@ def staging_rules(chk, prog):
     sm, stf = prog.func("stage", SG)
     wr = prog.nested(stf, "wrapped")
     ev = Evaluator(prog)
-    ev.opaque_funcs |= {"get_shaped_aval", "cached_stage_dynamic"}
+    ev.opaque_funcs |= {"cached_stage_dynamic"}
     rs = ev.eval_fn(wr, sm, env0={"f": P("f")})
     oks = is_t(rs.ret, "tuple") and len(rs.ret[1]) == 2 and is_t(rs.ret[1][1], "tuple") and len(rs.ret[1][1][1]) == 3 and is_call(rs.ret[1][0], "cached_stage_dynamic")
     fl = ("call", G("jax.tree_util.tree_flatten"), (P("args"),), ())
@@ -113,15 +113,29 @@ def staging_rules(chk, prog):
         oks = rs.ret[1][1][1][0] == mk_proj(fl, 0) and rs.ret[1][1][1][1] == mk_proj(fl, 1)
     chk.require(oks, "INTERP-SKELETON", "stage.wrapped", "returns the staged jaxpr with (flat_args, in_tree, out_tree) of the same flattening", derived=show(rs.ret)[:240], expected="(typed_jaxpr, (flat_args, in_tree, out_tree))", where=f"{sm.rel}:{stf.lineno}")
     avals = rs.ret[1][0][2][1] if oks and len(rs.ret[1][0][2]) == 2 else None
-    oka = avals is not None and any(is_call(x, "safe_map") and len(x[2]) == 2 and is_call(("call", x[2][0], (), ()), "get_shaped_aval") and x[2][1] == mk_proj(fl, 0) for x in subterms(avals))
+    # one abstract value per flat argument, obtained by JAX's own abstractification of THAT argument (map / safe_map / comprehension, helper or inline)
+    if is_call(avals, "tuple") and len(avals[2]) == 1:
+        avals = avals[2][0]
+    if (is_call(avals, "safe_map") or is_call(avals, "map")) and len(avals[2]) == 2:  # map(f, xs) read as [f(x) for x in xs]
+        avals = ("fam", avals[2][1], ev.apply(avals[2][0], [("elem", avals[2][1])], module=sm))
+    oka = is_t(avals, "fam") and avals[1] == mk_proj(fl, 0)
+    if oka:
+        inner_ = avals[2]
+        while is_call(inner_, *ABSTRACTIFY) and inner_[2] and inner_[2][0] != ("elem", mk_proj(fl, 0)):
+            inner_ = inner_[2][0]
+        oka = is_call(inner_, *ABSTRACTIFY) and inner_[2] == (("elem", mk_proj(fl, 0)),)
     chk.require(oka, "STAGE-AVAL", "stage.wrapped/avals", "one abstract value per flat argument", derived=show(avals)[:160], expected="tuple(safe_map(get_shaped_aval, flat_args))", where=f"{sm.rel}:{stf.lineno}")
-    _, ga = prog.func("get_shaped_aval", SG)
-    rg = Evaluator(prog).eval_fn(ga, sm)
-    t = rg.ret
-    inner = t
-    while is_call(inner, *ABSTRACTIFY) and inner[2] and inner[2][0] != P("x"):
-        inner = inner[2][0]
-    okg = is_call(inner, *ABSTRACTIFY) and inner[2] == (P("x"),)
+    ga = sm.funcs.get("get_shaped_aval")
+    okg, t = True, C(None)
+    if ga is not None:  # the helper, when there is one (its use at the staging site is decided above, through inlining)
+        rg = Evaluator(prog).eval_fn(ga, sm)
+        t = rg.ret
+        inner = t
+        xn = P(ga.args.args[0].arg) if ga.args.args else P("x")
+        while is_call(inner, *ABSTRACTIFY) and inner[2] and inner[2][0] != xn:
+            inner = inner[2][0]
+        okg = is_call(inner, *ABSTRACTIFY) and inner[2] == (xn,)
+    ga = ga or stf
     chk.require(okg, "STAGE-AVAL", "get_shaped_aval", "abstract value used for staging", derived=show(t)[:160],
                 expected="JAX's own abstractification of the value (jax.core.get_aval / shaped_abstractify), which keeps weak types: a hand-built ShapedArray(shape, dtype) changes dtype promotion of Python scalars in the staged program", where=f"{sm.rel}:{ga.lineno}")
     _, cs = prog.func("cached_stage_dynamic", SG)
